@@ -45,6 +45,23 @@ Theorem C18_kernel_agrees_with_realpath : forall s fuel m seen cur cs x,
 Proof. intros s fuel m seen cur cs x W H. eapply walk_agree; eauto. Qed.
 Print Assumptions C18_kernel_agrees_with_realpath.
 
+(* --- 4. Benign archives.  [archive] holds only regular and directory members whose names are free of ".."
+   ([plain]); no regular member's name is a prefix of, or equal to, another member's name ([consistent]); on the
+   tree-shaped state [s] every member [fits]: what lies on the way to it is free or a real directory, and
+   nothing exists yet under the name of a regular member.  Then the archive is extracted completely (outcome
+   OOk) and every regular member is found under its name with its content, owner-readable and -writable.
+   (Overwriting files that already exist is outside this theorem; the correspondence run covers it.) *)
+Theorem C18_benign_extracted : forall (R : rpath) (archive : list member) (s : state),
+  WF s -> node_at s R = Some NDir -> InoOk s ->
+  (forall m, In m archive -> plain (comps (m_name m)) /\ fits R s m) ->
+  consistent archive ->
+  exists s', untar R archive s = (OOk, s') /\
+    forall n d, In (MReg n d) archive ->
+      exists i, node_at s' (rev (comps n) ++ R) = Some (NFile i) /\
+                lookup i (files s') = Some {| f_data := d; f_orw := true |}.
+Proof. exact benign_extracted. Qed.
+Print Assumptions C18_benign_extracted.
+
 (* --- non-vacuity and the hostile cases of the property on a concrete, populated tree:
      /p/install            the install directory R, with  pre/old.txt  and  ext -> ../outdir  (user-made)
      /p/sentinel.txt, /p/outdir/keep.txt, /p/outdir/back -> ../install/landing       outside *)
@@ -69,6 +86,20 @@ Example C18_example_benign :
   /\ lookup 4 (files (snd r)) = Some {| f_data := "data"; f_orw := true |}
   /\ lookup 1 (files (snd r)) = Some {| f_data := "new"; f_orw := true |}.
 Proof. vm_compute. repeat split. Qed.
+
+(* the hypotheses of C18_benign_extracted are met by a concrete archive on the populated tree st0 *)
+Definition benign0 : list member :=
+  [MDir "./"; MReg "a/b/f.txt" "data"; MDir "a/b"; MReg "./g.txt" "z"; MReg "pre/new.txt" "n"; MDir "pre"].
+Example C18_example_benign_hypotheses :
+  WF st0 /\ node_at st0 R0 = Some NDir /\ InoOk st0 /\
+  (forall m, In m benign0 -> plain (comps (m_name m)) /\ fits R0 st0 m) /\ consistent benign0.
+Proof.
+  split; [apply wfb_WF; vm_compute; reflexivity|]. split; [reflexivity|].
+  split; [apply inookb_InoOk; vm_compute; reflexivity|]. split; [|apply consistentb_ok; vm_compute; reflexivity].
+  assert (H : forallb (fun m => plainb (comps (m_name m)) && fitsb R0 st0 m) benign0 = true) by (vm_compute; reflexivity).
+  rewrite forallb_forall in H. intros m I. specialize (H m I). apply andb_true_iff in H. destruct H as [H1 H2].
+  split; [apply plainb_ok; exact H1 | apply fitsb_ok; exact H2].
+Qed.
 
 (* every hostile shape named by the property is refused before anything is written *)
 Example C18_example_hostile :
